@@ -150,6 +150,27 @@ def pump(rng: random.Random) -> bytes:
     return prefix + unit * rng.choice([25, 40, 60, 200]) + tail
 
 
+def respell_field(rng: random.Random, line: bytes) -> bytes:
+    """Another spelling of the same header field (RFC 5322 4.5.8 obs-optional
+    allows WSP before the colon; names are case-insensitive)."""
+    i = line.find(b':')
+    if i <= 0 or rng.random() >= 0.2:
+        return line
+    name, rest = line[:i], line[i + 1:]
+    k = rng.randrange(5)
+    if k == 0:
+        name += rng.choice([b' ', b'\t', b'  '])
+    elif k == 1:
+        name = name.upper()
+    elif k == 2:
+        name = name.lower()
+    elif k == 3:
+        rest = rest.lstrip(b' ')
+    else:
+        rest = b'\t' + rest
+    return name + b':' + rest
+
+
 def hostile_message(rng: random.Random, cid: bytes = b'x',
                     max_len: int = 4000) -> bytes:
     r = rng.random()
@@ -208,8 +229,11 @@ def hostile_message(rng: random.Random, cid: bytes = b'x',
                             b'X-\xff: y', b'X-Long: ' + b'z' * 2000,
                             b'X-Fold: a\r\n b\r\n\tc']),
     ]
+    # respelling draws from a generator of its own, so that the messages of
+    # existing seeds keep all their other choices
+    r2 = random.Random(int(r * 2 ** 53))
     for _ in range(rng.randint(0, 8)):
-        hdr.append(rng.choice(choices)())
+        hdr.append(respell_field(r2, rng.choice(choices)()))
     if r < 0.15:
         # nested multipart with boundary games
         b = rng.choice([b'b', b'=_x', b'--', b'b b', b'"'])
